@@ -103,8 +103,7 @@ theorem inv_step {s : Srv} (hI : Inv s) (i : In) : Inv (step s i).1 := by
       split
       · apply inv_setSess (inv_of_sessions_eq hI (poolAllocate_sessions s _)) _
         exact ⟨fun _ => rfl, fun _ => rfl, fun _ => rfl⟩
-      · apply inv_setSess hI _
-        exact ⟨by simp, by simp, hok.2.2⟩
+      · exact inv_erase (inv_of_sessions_eq hI (poolRelease_sessions s _)) sid rfl
   | ipcp m sid k =>
     simp only [step]
     split
@@ -307,7 +306,10 @@ theorem ghost_set_only_by_accepted_pap (s : Srv) (i : In) (sid : Nat) (x' : Sess
           simp only [papOk, hr, if_true, decide_eq_true_eq] at hok
           exact hok
         · exact Or.inl ⟨x', h, ha⟩
-      · (simp only [setSess] at h; exact Or.inl (keep sid' x _ hx h rfl))
+      · simp only [lookup_erase, poolRelease_sessions] at h
+        split at h
+        · simp at h
+        · exact Or.inl ⟨x', h, ha⟩
   | ipcp m sid' k =>
     simp only [step] at h
     split at h
